@@ -86,7 +86,7 @@ theorem expRangeReduce_canonical (fuel : Nat) (x r : Flt) (hF : x.sem.WF) (hx : 
 /-- `exp` of a canonical value is canonical, of the operand's format. -/
 theorem expFuel_canonical (fuel : Nat) (x r : Flt) (hF : x.sem.WF) (hx : x.Canonical)
     (h : x.expFuel fuel = some r) : r.Canonical ∧ r.sem = x.sem := by
-  have hW := Sem.wide_WF hF 10 10
+  have hW : x.expSem.WF := Sem.wide_WF hF _ 10
   unfold Flt.expFuel at h
   simp only at h
   split at h
@@ -100,8 +100,8 @@ theorem expFuel_canonical (fuel : Nat) (x r : Flt) (hF : x.sem.WF) (hx : x.Canon
       · split at h
         · simp only [Option.map_eq_some_iff] at h
           obtain ⟨r0, _, rfl⟩ := h
-          have hd := div_canonical (Flt.one ((x.sem.growLog 10).increaseExponent 10) false)
-            (r0.cast ((x.sem.growLog 10).increaseExponent 10)) hW
+          have hd := div_canonical (Flt.one x.expSem false)
+            (r0.cast x.expSem) hW
           exact cast_canonical _ _ hF hd.1
         · simp only [Option.map_eq_some_iff] at h
           obtain ⟨r0, h0, rfl⟩ := h
